@@ -126,5 +126,5 @@ class WalletMessage(TlbScheme):
         return builder.end_cell()
 
     @classmethod
-    def deserialize(cls, *args):
-        pass
+    def deserialize(cls, cell_slice: Slice):
+        return cls(send_mode=cell_slice.load_uint(8), message=MessageAny.deserialize(cell_slice.load_ref().begin_parse()))
